@@ -263,16 +263,25 @@ Definition is_valid (p : cproof) (txid : Z) : Z :=
   | Panic => 3
   end.
 
-(* the node: chain of (header id, merkle root) newest first (genesis, id 0, is not stored),
-   unconfirmed relevant txids (TxRepository.unconfirmed), mempool txids, in-sync flag *)
+(* the node.  In memory: chain of (header id, merkle root) newest first (genesis, id 0, is not stored),
+   unconfirmed relevant txids (TxRepository.unconfirmed), mempool txids, in-sync flag.
+   In storage (what a restart finds): the headers as of the last BlockRepository.Save (after every block
+   when in sync, else only at shutdown), the unconfirmed list as of the last TxRepository save (end of every
+   completely processed block, shutdown), and the per-height relevant-txid files spynode/txs/<height>,
+   written immediately (TxRepository.Add / Remove with a height).
+   n_faults: transactions whose spent outputs the output fetcher currently fails to deliver (environment). *)
 Record nstate := NS {
   n_chain : list (Z * mnode);
   n_unconf : list Z;
   n_mempool : list Z;
   n_insync : bool;
+  n_saved_chain : list (Z * mnode);
+  n_saved_unconf : list Z;
+  n_txfiles : list (Z * list Z);
+  n_faults : list Z;
 }.
 
-Definition n_init (insync : bool) : nstate := NS [] [] [] insync.
+Definition n_init (insync : bool) : nstate := NS [] [] [] insync [] [] [] [].
 Definition n_height (s : nstate) : Z := zlen (n_chain s).
 Definition n_tip (s : nstate) : Z := match n_chain s with [] => 0 | h :: _ => fst h end.
 
@@ -283,6 +292,21 @@ Fixpoint remove_hash (x : Z) (l : list Z) : bool * list Z :=
   match l with
   | [] => (false, [])
   | y :: l' => if x =? y then (true, l') else let '(b, r) := remove_hash x l' in (b, y :: r)
+  end.
+
+(* per-height tx id files: TxRepository.Add(txid, height) appends unless listed (its result `added` is
+   ignored by ProcessBlock), TxRepository.Remove(txid, height) deletes the first occurrence *)
+Definition file_add (x : Z) (file : list Z) : list Z := if zmem x file then file else file ++ [x].
+Definition file_remove (x : Z) (file : list Z) : list Z := snd (remove_hash x file).
+Fixpoint get_file (h : Z) (files : list (Z * list Z)) : list Z :=
+  match files with
+  | [] => []
+  | (k, f) :: files' => if k =? h then f else get_file h files'
+  end.
+Fixpoint set_file (h : Z) (f : list Z) (files : list (Z * list Z)) : list (Z * list Z) :=
+  match files with
+  | [] => [(h, f)]
+  | (k, g) :: files' => if k =? h then (h, f) :: files' else (k, g) :: set_file h f files'
   end.
 
 (* notifications *)
@@ -303,28 +327,39 @@ Definition mk_obs (code : Z) (s : nstate) (evs : list event) : obs :=
   [code; n_height s; n_tip s; zlen evs] ++ concat (map enc_event evs).
 
 (* the registration loop of ProcessBlock over the block's transactions (txid, relevant):
-   state = (merkle tree, unconfirmed left, mempool left, txs with is-new flag) *)
-Definition block_tx (insync : bool) (st : res (mtree * list Z * list Z * list (Z * bool))) (tx : Z * bool)
-  : res (mtree * list Z * list Z * list (Z * bool)) :=
-  res_bind st (fun '(tree, unconf, mempool, txs) =>
+   state = (merkle tree, unconfirmed left, mempool left, txs with is-new flag, tx id file of this height) *)
+Definition block_tx (insync : bool) (st : res (mtree * list Z * list Z * list (Z * bool) * list Z)) (tx : Z * bool)
+  : res (mtree * list Z * list Z * list (Z * bool) * list Z) :=
+  res_bind st (fun '(tree, unconf, mempool, txs, file) =>
     let txid := fst tx in
     let '(in_unconf, unconf1) := remove_hash txid unconf in
     let '(in_mempool, mempool1) := if insync then remove_hash txid mempool else (false, mempool) in
-    let '(tree1, txs1) :=
-      if in_unconf then (add_merkle_proof tree txid, txs ++ [(txid, false)])
-      else if negb in_mempool && snd tx then (add_merkle_proof tree txid, txs ++ [(txid, true)])
-      else (tree, txs) in
-    res_bind (add_hash tree1 (Leaf txid)) (fun tree2 => Ok (tree2, unconf1, mempool1, txs1))).
+    let '(tree1, txs1, file1) :=
+      if in_unconf then (add_merkle_proof tree txid, txs ++ [(txid, false)], file)
+      else if negb in_mempool then
+        if snd tx then (add_merkle_proof tree txid, txs ++ [(txid, true)], file_add txid file)
+        else (tree, txs, file_remove txid file)
+      else (tree, txs, file) in
+    res_bind (add_hash tree1 (Leaf txid)) (fun tree2 => Ok (tree2, unconf1, mempool1, txs1, file1))).
 
-(* sending the updates: merkleProofs[i] pairs with txs[i] (out of range is a Go panic) *)
-Fixpoint block_events (hdr : Z * mnode) (proofs : list mproof) (i : Z) (txs : list (Z * bool)) : res (list event) :=
+(* sending the updates: merkleProofs[i] pairs with txs[i] (out of range is a Go panic).  A new transaction's
+   spent outputs are fetched before it is delivered; when the fetcher fails ProcessBlock returns the error:
+   the notifications sent so far stay sent, the rest of the block is not notified.
+   Result: notifications, outcome class. *)
+Fixpoint block_events (hdr : Z * mnode) (faults : list Z) (proofs : list mproof) (i : Z) (txs : list (Z * bool))
+  : list event * Z :=
   match txs with
-  | [] => Ok []
+  | [] => ([], OK)
   | (txid, isnew) :: txs' =>
-      res_bind (index proofs i) (fun mp =>
-      let cp := convert_merkle_proof mp hdr in
-      res_bind (block_events hdr proofs (i + 1) txs') (fun evs =>
-      Ok (ETx (if isnew then 1 else 2) txid (Some (cp, 0, is_valid cp txid)) :: evs)))
+      match index proofs i with
+      | Ok mp =>
+          if isnew && zmem txid faults then ([], ERR)
+          else
+            let cp := convert_merkle_proof mp hdr in
+            let '(evs, code) := block_events hdr faults proofs (i + 1) txs' in
+            (ETx (if isnew then 1 else 2) txid (Some (cp, 0, is_valid cp txid)) :: evs, code)
+      | _ => ([], PANIC)
+      end
   end.
 
 (* the block type's IsMerkleRootValid (wire.MsgBlock / wire.MsgParseBlock recompute the root from the
@@ -333,49 +368,70 @@ Definition is_merkle_root_valid (hroot : mnode) (body : list Z) : bool :=
   match ref_root (map Leaf body) with Some r => mnode_eqb r hroot | None => false end.
 
 (* ProcessBlock.  Result: new state, error class, notifications.  The second comparison (streaming root
-   against the header) happens after the header was added and announced - modelled as the code has it. *)
+   against the header) happens after the header was added and announced - modelled as the code has it.
+   The unconfirmed list is only replaced (and saved) when the block is processed to the end. *)
 Definition process_block (s : nstate) (hid prev : Z) (hroot : mnode) (body : list (Z * bool)) (lie : bool)
   : nstate * Z * list event :=
   if existsb (fun h => fst h =? hid) (n_chain s) || (hid =? 0) then (s, ERR, [])       (* ErrBlockNotAdded *)
   else if negb (prev =? n_tip s) then (s, ERR, [])                                  (* ErrBlockNotNextBlock *)
   else if negb (lie || is_merkle_root_valid hroot (map fst body)) then (s, ERR, []) (* ErrBlockNotAdded *)
   else
-    let s1 := NS ((hid, hroot) :: n_chain s) (n_unconf s) (n_mempool s) (n_insync s) in
-    let hev := EHeaders (n_height s1) hid in
-    match fold_left (block_tx (n_insync s)) body (Ok (new_tree, n_unconf s, n_mempool s, [])) with
-    | Ok (tree, unconf, mempool, txs) =>
+    let chain1 := (hid, hroot) :: n_chain s in
+    let saved1 := if n_insync s then chain1 else n_saved_chain s in
+    let height := zlen chain1 in
+    let hev := EHeaders height hid in
+    (* state when ProcessBlock returns early: header added (saved when in sync), unconfirmed list untouched *)
+    let early mempool files := NS chain1 (n_unconf s) mempool (n_insync s) saved1 (n_saved_unconf s) files (n_faults s) in
+    match fold_left (block_tx (n_insync s)) body
+                    (Ok (new_tree, n_unconf s, n_mempool s, [], get_file height (n_txfiles s))) with
+    | Ok (tree, unconf, mempool, txs, file) =>
+        let files := set_file height file (n_txfiles s) in
         match finalize tree with
         | Ok (root, proofs) =>
             if negb (match root with Some r => mnode_eqb r hroot | None => false end)
-            then (NS (n_chain s1) (n_unconf s) mempool (n_insync s), ERR, [hev])   (* "Invalid merkle root hash" *)
-            else match block_events (hid, hroot) proofs 0 txs with
-                 | Ok evs => (NS (n_chain s1) unconf mempool (n_insync s), OK, hev :: evs)
-                 | Err _ => (s1, ERR, [hev])
-                 | Panic => (s1, PANIC, [hev])
-                 end
-        | Err _ => (s1, ERR, [hev])
-        | Panic => (s1, PANIC, [hev])
+            then (early mempool files, ERR, [hev])                           (* "Invalid merkle root hash" *)
+            else
+              let '(evs, code) := block_events (hid, hroot) (n_faults s) proofs 0 txs in
+              if code =? OK
+              then (NS chain1 unconf mempool (n_insync s) saved1 unconf files (n_faults s), OK, hev :: evs)
+              else (early mempool files, code, hev :: evs)
+        | Err _ => (early mempool files, ERR, [hev])
+        | Panic => (early mempool files, PANIC, [hev])
         end
-    | Err _ => (s1, ERR, [hev])
-    | Panic => (s1, PANIC, [hev])
+    | Err _ => (early (n_mempool s) (n_txfiles s), ERR, [hev])
+    | Panic => (early (n_mempool s) (n_txfiles s), PANIC, [hev])
     end.
 
 (* a transaction arrives unconfirmed (Node.HandleTx -> processUnconfirmedTx): remembered in the mempool;
-   when relevant and not yet delivered it is delivered (no proof) and becomes unconfirmed *)
+   when relevant and not yet delivered it is delivered (no proof) and becomes unconfirmed (in memory).
+   (Not modelled: an output fetch fault for such a transaction - excluded by c04_valid.) *)
 Definition process_seen (s : nstate) (t : Z) (rel : bool) : nstate * Z * list event :=
   if zmem t (n_mempool s) then (s, OK, [])
   else
-    let s1 := NS (n_chain s) (n_unconf s) (n_mempool s ++ [t]) (n_insync s) in
+    let upd unconf := NS (n_chain s) unconf (n_mempool s ++ [t]) (n_insync s)
+                         (n_saved_chain s) (n_saved_unconf s) (n_txfiles s) (n_faults s) in
     if rel && negb (zmem t (n_unconf s))
-    then (NS (n_chain s) (n_unconf s ++ [t]) (n_mempool s1) (n_insync s), OK, [ETx 1 t None])
-    else (s1, OK, []).
+    then (upd (n_unconf s ++ [t]), OK, [ETx 1 t None])
+    else (upd (n_unconf s), OK, []).
+
+(* the Node is dropped and a new one loaded from storage.  graceful: headers and unconfirmed list are saved
+   first (shutdown); otherwise a hard crash.  The mempool is gone; insync: state of the new node. *)
+Definition process_restart (s : nstate) (graceful insync : bool) : nstate :=
+  let chain := if graceful then n_chain s else n_saved_chain s in
+  let unconf := if graceful then n_unconf s else n_saved_unconf s in
+  NS chain unconf [] insync chain unconf (n_txfiles s) (n_faults s).
+
+Definition set_faults (s : nstate) (ts : list Z) : nstate :=
+  NS (n_chain s) (n_unconf s) (n_mempool s) (n_insync s) (n_saved_chain s) (n_saved_unconf s) (n_txfiles s) ts.
 
 Inductive op :=
 | OSeen (t : Z) (rel : bool)
-| OBlock (hid prev : Z) (committed : list Z) (body : list (Z * bool)) (lie : bool).
+| OBlock (hid prev : Z) (committed : list Z) (body : list (Z * bool)) (lie : bool)
   (* the header commits to the textbook root of `committed`; `body` is what is delivered with it;
      lie: the block is wrapped in a type whose IsMerkleRootValid answers true without looking (no such
      type exists in the code base; used to exercise the second root comparison of ProcessBlock) *)
+| OFault (ts : list Z)                   (* the output fetcher fails for these transactions from now on *)
+| ORestart (graceful insync : bool).
 
 (* header root of a block op; an empty committed list has no root: such an op is outside c04_valid *)
 Definition committed_root (committed : list Z) : mnode :=
@@ -387,6 +443,8 @@ Definition step (s : nstate) (o : op) : nstate * obs :=
   | OBlock hid prev committed body lie =>
       let '(s1, code, evs) := process_block s hid prev (committed_root committed) body lie in
       (s1, mk_obs code s1 evs)
+  | OFault ts => let s1 := set_faults s ts in (s1, mk_obs OK s1 [])
+  | ORestart g i => let s1 := process_restart s g i in (s1, mk_obs OK s1 [])
   end.
 
 Fixpoint run_from (s : nstate) (ops : list op) : list obs :=
@@ -414,6 +472,17 @@ Definition conf_ok (hid : Z) (hroot : mnode) (ids : list Z) (tx : Z * bool) (e :
   exists cp, e = ETx (if snd tx then 1 else 2) (fst tx) (Some (cp, 0, 0)) /\
              c_hdr cp = (hid, hroot) /\ 0 <= c_index cp /\ ids !! Z.to_nat (c_index cp) = Some (fst tx) /\
              is_valid cp (fst tx) = 0.
+
+(* the transactions of a block that ProcessBlock notifies, with their is-new flag: one already delivered
+   unconfirmed gets a state update; any other relevant one (unless, in sync, it sits in the mempool as a
+   known transaction) is a new transaction.  The per-height tx id file does not appear here: whatever it
+   already lists - e.g. from a processing of the same block that a crash cut short - makes no difference. *)
+Definition select_tx (insync : bool) (unconf mempool : list Z) (tx : Z * bool) : option (Z * bool) :=
+  if zmem (fst tx) unconf then Some (fst tx, false)
+  else if snd tx && negb (insync && zmem (fst tx) mempool) then Some (fst tx, true)
+  else None.
+Definition selected (insync : bool) (unconf mempool : list Z) (body : list (Z * bool)) : list (Z * bool) :=
+  omap (select_tx insync unconf mempool) body.
 
 (* ---------------------------------------------------------------------------------------- *)
 (* Property monitor.  Reads the operations and the implementation's observations only; uses only the
@@ -500,8 +569,10 @@ Fixpoint find_index (x : Z) (l : list Z) (i : nat) : option nat :=
   | y :: l' => if x =? y then Some i else find_index x l' (S i)
   end.
 
-(* monitor state: chain (header id, committed leaves) newest first, txids already notified *)
-Record mstate := MS { m_chain : list (Z * list Z); m_notified : list Z }.
+(* monitor state: chain (header id, committed leaves) newest first as the node was observed to hold it;
+   txids delivered unconfirmed (their confirmation must be a state update); txids for which, after a crash
+   or an earlier (possibly aborted) processing of their block, either kind is accepted; the fault set *)
+Record mstate := MS { m_chain : list (Z * list Z); m_notified : list Z; m_maybe : list Z; m_faults : list Z }.
 Definition m_height (m : mstate) : Z := zlen (m_chain m).
 Definition m_tip (m : mstate) : Z := match m_chain m with [] => 0 | h :: _ => fst h end.
 
@@ -509,14 +580,15 @@ Definition opt_mnode_eqb (a b : option mnode) : bool :=
   match a, b with Some x, Some y => mnode_eqb x y | _, _ => false end.
 
 (* one delivered confirmation against the textbook: codes
-     421 kind / txid is not the expected one        422 no proof attached
+     421 wrong kind (new instead of update or the reverse)      422 no proof attached
      423 proof names another header than the one held at that height
      424 index is not the transaction's index in the block     425 unconfirmed depth not zero
      426 the real client verifier (MerkleProof.IsValid) rejected the proof
      427 the independent verifier rejects: the proof does not denote the textbook audit path of that
-         index, or the path does not fold to the header's root *)
+         index, or the path does not fold to the header's root
+   kind: 0 = either kind is accepted *)
 Definition check_conf (hid : Z) (committed : list Z) (kind txid : Z) (e : pevent) : Z :=
-  if negb ((e_kind e =? kind) && (e_txid e =? txid)) then 421
+  if negb (((kind =? 0) && ((e_kind e =? 1) || (e_kind e =? 2))) || (e_kind e =? kind)) then 421
   else if negb (e_has e =? 1) then 422
   else if negb (e_hdr e =? hid) then 423
   else match find_index txid committed 0 with
@@ -536,18 +608,28 @@ Definition check_conf (hid : Z) (committed : list Z) (kind txid : Z) (e : pevent
              end
        end.
 
-Fixpoint check_confs (hid : Z) (committed : list Z) (notified : list Z) (body : list (Z * bool)) (es : list pevent) : Z :=
+Definition expected_kind (m : mstate) (t : Z) : Z :=
+  if zmem t (m_notified m) then 2 else if zmem t (m_maybe m) then 0 else 1.
+
+(* the confirmations of a block against its relevant transactions, in block order.  A notification is
+   matched with the next relevant transaction of that txid; relevant transactions skipped on the way were
+   not notified (429, reported unless a proof defect is found further on - that one is reported first);
+   complete = false: the block was cut short by an injected fault, missing notifications are not counted *)
+Fixpoint check_confs (m : mstate) (hid : Z) (committed : list Z) (complete : bool) (miss : Z)
+                     (body : list (Z * bool)) (es : list pevent) : Z :=
   match body with
-  | [] => match es with [] => 0 | _ => 428 end                      (* a notification nobody asked for *)
+  | [] => match es with [] => miss | _ => 428 end                   (* a notification nobody asked for *)
   | (t, rel) :: body' =>
       if rel then
         match es with
-        | [] => 429                                                   (* a relevant transaction of the block not notified *)
+        | [] => if complete then 429 else miss                        (* a relevant transaction of the block not notified *)
         | e :: es' =>
-            let c := check_conf hid committed (if zmem t notified then 2 else 1) t e in
-            if negb (c =? 0) then c else check_confs hid committed notified body' es'
+            if e_txid e =? t then
+              let c := check_conf hid committed (expected_kind m t) t e in
+              if negb (c =? 0) then c else check_confs m hid committed complete miss body' es'
+            else check_confs m hid committed complete (if complete then 429 else miss) body' es
         end
-      else check_confs hid committed notified body' es
+      else check_confs m hid committed complete miss body' es
   end.
 
 Definition c04_step (m : mstate) (o : op) (ob : obs) : Z * mstate :=
@@ -561,10 +643,24 @@ Definition c04_step (m : mstate) (o : op) (ob : obs) : Z * mstate :=
               (* outside a block: chain untouched; only new-transaction notifications without proof *)
               if negb ((height =? m_height m) && (tip =? m_tip m)) then (410, m)
               else if existsb (fun e => negb ((e_kind e =? 1) && (e_has e =? 0))) es then (410, m)
-              else (0, MS (m_chain m) (map e_txid es ++ m_notified m))
+              else (0, MS (m_chain m) (map e_txid es ++ m_notified m) (m_maybe m) (m_faults m))
+          | OFault ts =>
+              if (height =? m_height m) && (tip =? m_tip m) && (nev =? 0)
+              then (0, MS (m_chain m) (m_notified m) (m_maybe m) ts) else (410, m)
+          | ORestart graceful _ =>
+              (* the chain the node holds after the restart is what it is observed to hold: a suffix was
+                 lost when headers were not saved; nothing is delivered by a restart *)
+              let k := m_height m - height in
+              if (k <? 0) || negb (nev =? 0) then (430, m) else
+              let chain := drop (Z.to_nat k) (m_chain m) in
+              if negb (tip =? match chain with [] => 0 | h :: _ => fst h end) then (430, m)
+              else if graceful then (0, MS chain (m_notified m) (m_maybe m) (m_faults m))
+              else (0, MS chain [] (m_notified m ++ m_maybe m) (m_faults m))
           | OBlock hid prev committed body _ =>
               let fresh := negb (existsb (fun h => fst h =? hid) (m_chain m) || (hid =? 0)) in
               let body_ok := opt_mnode_eqb (ref_root (map Leaf (map fst body))) (ref_root (map Leaf committed)) in
+              let faulty := existsb (fun tx => snd tx && zmem (fst tx) (m_faults m)) body in
+              let relevant := map fst (filter (fun tx => snd tx = true) body) in
               if negb (fresh && (prev =? m_tip m)) then
                 (* not the next block / already held: nothing may change (not the subject of C04) *)
                 if (height =? m_height m) && (tip =? m_tip m) && (nev =? 0) then (0, m) else (419, m)
@@ -573,16 +669,33 @@ Definition c04_step (m : mstate) (o : op) (ob : obs) : Z * mstate :=
                 if negb ((height =? m_height m) && (tip =? m_tip m)) then (411, m)
                 else if negb (nev =? 0) then (412, m)
                 else (0, m)
+              else if faulty then
+                (* a block whose processing an injected output-fetch fault may cut short: whatever was
+                   delivered must still be right; the chain is what the node is observed to hold *)
+                if (height =? m_height m) && (tip =? m_tip m) then
+                  if nev =? 0 then (0, m) else (412, m)
+                else if negb ((height =? m_height m + 1) && (tip =? hid)) then (418, m)
+                else match es with
+                     | e0 :: es' =>
+                         if negb ((e_kind e0 =? 3) && (e_txid e0 =? hid) && (e_index e0 =? height)) then (420, m)
+                         else let c := check_confs m hid committed (code =? OK) 0 body es' in
+                              if negb (c =? 0) then (c, m)
+                              else (0, MS ((hid, committed) :: m_chain m)
+                                          (filter (fun t => negb (zmem t relevant) = true) (m_notified m))
+                                          (relevant ++ m_maybe m) (m_faults m))
+                     | [] => (420, m)
+                     end
               else
                 (* a block whose body matches its header *)
                 if negb ((code =? OK) && (height =? m_height m + 1) && (tip =? hid)) then (418, m)
                 else match es with
                      | e0 :: es' =>
                          if negb ((e_kind e0 =? 3) && (e_txid e0 =? hid) && (e_index e0 =? height)) then (420, m)
-                         else let c := check_confs hid committed (m_notified m) body es' in
+                         else let c := check_confs m hid committed true 0 body es' in
                               if negb (c =? 0) then (c, m)
                               else (0, MS ((hid, committed) :: m_chain m)
-                                          (map fst (filter (fun tx => snd tx = true) body) ++ m_notified m))
+                                          (filter (fun t => negb (zmem t relevant) = true) (m_notified m))
+                                          (relevant ++ m_maybe m) (m_faults m))
                      | [] => (420, m)
                      end
           end
@@ -599,37 +712,46 @@ Fixpoint c04_from (m : mstate) (i : Z) (ops : list op) (tr : list obs) : option 
   | _, _ => Some (i, [497])
   end.
 
-Definition c04_monitor : checker op := fun ops tr => c04_from (MS [] []) 0 ops tr.
+Definition c04_monitor : checker op := fun ops tr => c04_from (MS [] [] [] []) 0 ops tr.
 
 (* hypotheses of the property on a history: txids are non-negative and pairwise distinct inside every
    delivered body and every committed list (this excludes the CVE-2012-2459 shape [a,b,c] ~ [a,b,c,c]),
    committed lists are non-empty, a txid always carries the same relevance flag, no transaction is
-   re-announced unconfirmed after a block that contains it, and no txid is confirmed twice *)
+   re-announced unconfirmed after a block that contains it, a txid belongs to the blocks of one header only
+   (it is confirmed once; the same block may be processed again after a restart), no lying block type, and
+   the injected output-fetch faults never concern a transaction that also arrives unconfirmed *)
 Fixpoint nodup_z (l : list Z) : bool :=
   match l with [] => true | x :: l' => negb (zmem x l') && nodup_z l' end.
 
 Definition op_txs (o : op) : list (Z * bool) :=
-  match o with OSeen t rel => [(t, rel)] | OBlock _ _ _ body _ => body end.
+  match o with OSeen t rel => [(t, rel)] | OBlock _ _ _ body _ => body | _ => [] end.
 
 Definition flags_consistent (txs : list (Z * bool)) : bool :=
   forallb (fun a => forallb (fun b => negb (fst a =? fst b) || Bool.eqb (snd a) (snd b)) txs) txs.
 
-(* validity is evaluated along the history with the reference only: st = (chain of header ids newest
-   first, txids of every block body seen so far, txids confirmed in an accepted block) *)
-Fixpoint valid_from (tip : Z) (hids : list Z) (inblock confirmed : list Z) (ops : list op) : bool :=
+Definition owner_ok (owner : list (Z * Z)) (hid t : Z) : bool :=
+  forallb (fun e => negb (fst e =? t) || (snd e =? hid)) owner.
+
+(* owner: (txid, header id) for every txid met in a block op so far *)
+Fixpoint valid_from (owner : list (Z * Z)) (ops : list op) : bool :=
   match ops with
   | [] => true
-  | OSeen t _ :: ops' => (0 <=? t) && negb (zmem t inblock) && valid_from tip hids inblock confirmed ops'
+  | OSeen t _ :: ops' => (0 <=? t) && negb (existsb (fun e => fst e =? t) owner) && valid_from owner ops'
   | OBlock hid prev committed body lie :: ops' =>
       let ids := map fst body in
       negb lie && (0 <? hid) && negb (zlen committed =? 0) && nodup_z committed && nodup_z ids
       && forallb (fun t => 0 <=? t) committed && forallb (fun t => 0 <=? t) ids
-      && (zmem hid hids || negb (existsb (fun t => zmem t confirmed) ids))   (* a txid is confirmed once *)
-      && (let accepted := negb (zmem hid hids) && (prev =? tip)
-                          && opt_mnode_eqb (ref_root (map Leaf ids)) (ref_root (map Leaf committed)) in
-          if accepted then valid_from hid (hid :: hids) (ids ++ inblock) (ids ++ confirmed) ops'
-          else valid_from tip hids (ids ++ inblock) confirmed ops')
+      && forallb (owner_ok owner hid) (ids ++ committed)
+      && valid_from (map (fun t => (t, hid)) (ids ++ committed) ++ owner) ops'
+  | OFault _ :: ops' => valid_from owner ops'
+  | ORestart _ _ :: ops' => valid_from owner ops'
   end.
 
+Definition faults_not_seen (ops : list op) : bool :=
+  forallb (fun o => match o with
+                    | OFault ts => forallb (fun o' => match o' with OSeen t _ => negb (zmem t ts) | _ => true end) ops
+                    | _ => true
+                    end) ops.
+
 Definition c04_valid (ops : list op) : bool :=
-  flags_consistent (concat (map op_txs ops)) && valid_from 0 [] [] [] ops.
+  flags_consistent (concat (map op_txs ops)) && valid_from [] ops && faults_not_seen ops.
